@@ -172,6 +172,15 @@ def ob_bed_zoom_stat(ctx, res):
 
 def ob_bed_summary(ctx, res):
     fn = ctx.ast.fn(BW, "process_val", inline=True, keep=("encode_section",))
+    from .sweeps import bed_sweep_eval
+    ev = bed_sweep_eval(ctx)
+    if ev is not None:
+        if ev[0] == "bad":
+            res.fail("bedSummary/eval", fn, "bigBed chromosome summary: " + ev[1])
+        else:
+            res.ok(fn, "bigBed summary sweep (add_interval_to_summary) run on a stand-in depth list for 6 entry sequences (%d entries; overlapping, nested, identical, zero-length): "
+                       "after every entry bases/min/max/sum/sum of squares equal the coverage depth statistics of the bases before the next entry's start" % ev[1])
+        return
     gs = [g for g in S.summary_blocks(fn.body) if g["base"] == "summary"]
     lits = S.summary_literals(fn.body)
     if len(gs) != 1 or len(lits) != 1:
@@ -228,8 +237,14 @@ def ob_total_items(ctx, res):
             continue
         de = ctx.ast.fn(BW, "destroy", impl=impl)
         asg = [n for n in walk_no_nested_fn(de.body) if n.k == "assign" and up(strip(n["l"])).endswith(".total_items") and up(strip(n["r"])) == "total_items"]
-        if len(asg) != 1:
-            res.fail("totalItems/%s/destroy" % impl, de, "destroy must store the counted entries into the returned summary")
+        # `Summary { total_items, ..rest }` (struct update) stores the count as well
+        upd = [n for n in walk_no_nested_fn(de.body) if n.k == "struct" and n["path"].split("::")[-1] == "Summary" and n.get("rest") is not None
+               and [x for x in n["fields"] if x["name"] == "total_items" and up(strip(x["e"])) in ("total_items", "self.total_items")]]
+        if len(asg) + len(upd) != 1:
+            if not asg and not upd and ".total_items" not in up(de.body) and "total_items" in up(de.body):
+                res.undecided("totalItems/%s/destroy" % impl, de, "how destroy stores the counted entries into the returned summary was not recognised")
+            else:
+                res.fail("totalItems/%s/destroy" % impl, de, "destroy must store the counted entries into the returned summary")
             continue
         res.ok(incs[0], "%s: total_items += 1 once per entry, unconditionally, stored into the chromosome summary" % impl)
 
@@ -392,6 +407,100 @@ def ob_merge(ctx, res):
         res.ok(sa, "%s: first chromosome taken as is; then items/bases/sum/sumsq added and min/max folded only between summaries that have covered bases (%d concrete cases)" % (name, cases))
 
 
+_AVG_CASES = [
+    ([], 0, 20),
+    ([(3, 8, 2.0)], 0, 20),
+    ([(0, 10, 2.0), (10, 15, -1.0), (15, 16, 0.5)], 0, 20),
+    ([(5, 9, 0.0)], 5, 9),
+    ([(100, 101, -3.5), (101, 140, -0.25)], 100, 140),
+    ([(7, 9, 1.0), (9, 10, 1.0), (12, 13, 4.0)], 7, 13),
+    ([], 5, 5),
+]
+
+
+def _avg_eval(ctx, fn):
+    """stats_for_bed_item run by the interpreter over a mocked reader: None (not evaluable) | ("ok", n) | ("bad", message)"""
+    from ..rules.interp import Interp, NotPure, _Return
+    F_ = "bigtools/src/utils/misc.rs"
+    nan = float("nan")
+
+    def same(a, b):
+        return (a != a and b != b) or (a == b and type(a) in (int, float) and type(b) in (int, float))
+
+    n = 0
+    for vals, start, end in _AVG_CASES:
+        box = []
+
+        def method(m, recv, args, box=box, vals=vals):
+            if m == "get_interval" and recv == "BW" and len(args) == 3:
+                if args != ["chrQ", start, end]:
+                    raise NotPure("query")
+                return ("some", ("resiter", [{"start": a, "end": b, "value": v} for a, b, v in vals]))
+            if m == "collect" and isinstance(recv, tuple) and recv and recv[0] == "resiter" and not args:
+                return ("some", list(recv[1]))
+            if m in ("into_iter", "iter") and isinstance(recv, list) and not args:
+                return recv
+            if m == "fold" and isinstance(recv, list) and len(args) == 2:
+                acc = args[0]
+                for x in recv:
+                    acc = box[0].apply_closure(args[1], [acc, x])
+                return acc
+            if m == "len" and isinstance(recv, list) and not args:
+                return len(recv)
+            if m == "is_empty" and isinstance(recv, list) and not args:
+                return not recv
+            if m == "is_nan" and isinstance(recv, float) and not args:
+                return recv != recv
+            raise NotPure("method " + m)
+
+        def path(p_):
+            return {"f64::NAN": nan, "f64::MAX": 1.7976931348623157e308, "f64::MIN": -1.7976931348623157e308,
+                    "f64::INFINITY": float("inf"), "f64::NEG_INFINITY": float("-inf")}.get(p_, NotImplemented)
+
+        def binop(op, a, b):
+            if isinstance(a, (int, float)) and isinstance(b, (int, float)) and not isinstance(a, bool) and not isinstance(b, bool):
+                if op == "+":
+                    return a + b
+                if op == "-":
+                    if isinstance(a, int) and isinstance(b, int) and a < b:
+                        raise NotPure("unsigned underflow")
+                    return a - b
+                if op == "*":
+                    return a * b
+                if op == "/":
+                    if isinstance(a, int) and isinstance(b, int):
+                        if b == 0:
+                            raise NotPure("integer division by zero")
+                        return a // b
+                    return a / b if b != 0 else (nan if a == 0 or a != a else (float("inf") if a > 0 else float("-inf")))
+            raise NotPure("arithmetic on %r, %r" % (a, b))
+        it = Interp(ctx.ast, F_, extern={"None": None, "method": method, "path": path, "floats": True, "binop": binop})
+        box.append(it)
+        try:
+            r = it.call(fn, ["chrQ", {"start": start, "end": end, "rest": ""}, "BW"])
+        except (NotPure, _Return):
+            return None
+        except Exception:
+            return None
+        if not (isinstance(r, tuple) and len(r) == 2 and r[0] == "some" and isinstance(r[1], dict)):
+            return None
+        got = r[1]
+        bases = sum(b - a for a, b, v in vals)
+        sm = 0.0
+        for a, b, v in vals:
+            sm += float(b - a) * v
+        size = end - start
+        want = {"size": size, "bases": bases, "sum": sm, "mean0": (sm / size) if size else nan,
+                "mean": sm / bases if bases else nan, "min": min(v for _, _, v in vals) if bases else nan, "max": max(v for _, _, v in vals) if bases else nan}
+        for k, w in want.items():
+            if k not in got:
+                return None
+            if not same(got[k], w):
+                return ("bad", "for the region %d-%d with stored values %s the result has %s = %s; by definition it is %s" % (start, end, vals, k, got[k], w))
+        n += 1
+    return ("ok", n)
+
+
 def ob_avg_stats(ctx, res):
     """C17-A1"""
     fn = ctx.ast.fn("bigtools/src/utils/misc.rs", "stats_for_bed_item")
@@ -403,9 +512,18 @@ def ob_avg_stats(ctx, res):
     if qa != ["p0", "p1.start", "p1.end"]:
         res.fail("avgStats/query-args", gi[0], "values must be queried for (chrom, entry.start, entry.end); got %s" % qa)
         return
+    ev = _avg_eval(ctx, fn)
+    if ev is not None:
+        if ev[0] == "bad":
+            res.fail("avgStats/eval", fn, ev[1])
+        else:
+            res.ok(fn, "stats_for_bed_item evaluated on %d regions (no values, one, several with negative and fractional values, all-zero values, empty region): "
+                       "size, bases, sum, mean0, mean, min, max as defined; NaN exactly when no base is covered" % ev[1])
+        return
+    # not evaluable: the accumulation loop is read syntactically
     loops = [n for n in walk_no_nested_fn(fn.body) if n.k == "for"]
     if len(loops) != 1:
-        res.fail("avgStats/loop", fn, "expected one accumulation loop")
+        res.undecided("avgStats/loop", fn, "the statistics are neither evaluable nor accumulated in one `for` loop: not decided")
         return
     lp = loops[0]
     v = up(lp["pat"])
